@@ -50,6 +50,28 @@ def check(ctx):
     check_pickle(ctx)
 
 
+def _with_try(ctx, owner, expr):
+    """The ast.Try that a `with <expr>:` block amounts to, or None."""
+    if not isinstance(expr, ast.Call):
+        return None
+    name = norm_text(expr.func)
+    head = name.split('.')[0]
+    resolved = owner.module.imports.get(head, head) + name[len(head):]
+    if resolved == 'contextlib.suppress':
+        # with suppress(E1, E2): body  ==  try: body / except (E1, E2): pass
+        t = ast.Try(body=[], handlers=[ast.ExceptHandler(type=ast.Tuple(elts=list(expr.args), ctx=ast.Load()) if len(expr.args) != 1 else expr.args[0],
+                                                         name=None, body=[ast.Pass()])], orelse=[], finalbody=[])
+        return ast.copy_location(t, expr)
+    q = ctx.p.canonical(resolved) if hasattr(ctx.p, 'canonical') else resolved
+    fi = ctx.p.functions.get(q) or ctx.p.functions.get(f'{owner.module.name}.{name}')
+    if fi is None or not any(d.endswith('contextmanager') for d in fi.decorators):
+        return None
+    for t in ast.walk(fi.node):
+        if isinstance(t, ast.Try) and any(isinstance(y, (ast.Yield, ast.YieldFrom)) for b in t.body for y in ast.walk(b)):
+            return t
+    return None
+
+
 def check_loader(ctx, lf, fi):
     """`lf`: the public loader (its parameters are the cache key); `fi`: the function that tests, reads and writes the cache -
     the loader itself or the private helper it delegates to. Values are those of the loader's own run."""
@@ -69,6 +91,11 @@ def check_loader(ctx, lf, fi):
     helper_reads = [(h, c) for h in helpers.values() for c in calls_in(h.node) if isinstance(c.func, ast.Attribute) and c.func.attr == 'from_cache']
     to_cache_calls = [c for c in calls_in(fnode) if isinstance(c.func, ast.Attribute) and c.func.attr == 'to_cache']
     exists_calls = [c for c in calls_in(fnode) if isinstance(c.func, ast.Attribute) and c.func.attr == 'exists']
+    lf_reads = []
+    if lf is not fi:
+        # the write lives in a helper (`fi`); the read may have stayed in the loader itself
+        lf_reads = [(lf, c) for c in calls_in(lf.node) if isinstance(c.func, ast.Attribute) and c.func.attr == 'from_cache']
+        helper_reads = helper_reads + lf_reads
     if not from_cache_calls and not helper_reads:
         ctx.ob('R3', fi, fi.node.name, None, 'no read of the cache found in the loader or its helpers')
 
@@ -77,12 +104,25 @@ def check_loader(ctx, lf, fi):
         pm_ = pm if owner is fi else parent_map(owner.node)
         st = stmt_of(pm_, c)
         tries = []
+        withs = []
         n = st
         while n is not None:
             par = pm_.get(id(n))
             if isinstance(par, ast.Try) and any(n is b for b in par.body):
                 tries.append(par)
+            if isinstance(par, (ast.With, ast.AsyncWith)) and any(n is b for b in par.body):
+                # a context manager can swallow exceptions: a @contextmanager generator with `try: yield / except ...`
+                # stands for that try; contextlib.suppress(...) for a handler that does nothing
+                for item in par.items:
+                    cm = _with_try(ctx, owner, item.context_expr)
+                    if cm is not None:
+                        tries.append(cm)
+                    else:
+                        withs.append(item.context_expr)
             n = par
+        if not tries and withs:
+            ctx.ob('R3', owner, c, None, f'cache read inside `with {norm_text(withs[0])}`: whether that context manager absorbs a failed read is not known')
+            continue
         if not tries:
             ctx.ob('R3', owner, c, False, 'cache read is not protected by a try: an unreadable cache file aborts the load')
             continue
@@ -127,7 +167,21 @@ def check_loader(ctx, lf, fi):
             path_names.add(c.args[0].id)
         elif c.args:
             path_names.add(norm_text(c.args[0]))
-    for h_, c_ in helper_reads:
+    for h_, c_ in lf_reads:
+        # read in the loader, write in the helper: the loader's path variable is the argument it hands to the helper
+        x = c_.args[0] if c_.args else None
+        hp = [p_ for p_ in fi.params() if p_ not in ('cls', 'self')]
+        mapped = None
+        for call in calls_in(lf.node):
+            if isinstance(call.func, ast.Attribute) and call.func.attr == fi.name and x is not None:
+                for pos, a_ in enumerate(call.args):
+                    if norm_text(a_) == norm_text(x) and pos < len(hp):
+                        mapped = hp[pos]
+                for k_ in call.keywords:
+                    if k_.arg in hp and norm_text(k_.value) == norm_text(x):
+                        mapped = k_.arg
+        path_names.add(mapped if mapped is not None else (norm_text(x) if x is not None else '?'))
+    for h_, c_ in [hr for hr in helper_reads if hr not in lf_reads]:
         # the path the helper reads is its parameter: the argument given at the call in the loader
         hp = h_.params()
         for e in it.events:
@@ -308,7 +362,8 @@ def check_pickle(ctx):
     fc = ctx.fn(f'{TRAJ}.from_cache')
     it = ctx.entry(fc.qualname)
     res = it.result
-    loads = ctx.events(it, 'pickle_load', fc.qualname)
+    from .geo import under as _under
+    loads = [e for e in it.events if e['tag'] == 'pickle_load' and _under(fc.qualname)(e)]
     if not loads:
         ctx.ob('R4', fc, fc.node.name, None, 'no pickle.load found in from_cache')
     else:
@@ -326,9 +381,12 @@ def check_pickle(ctx):
                                                    f'cached (e.g. a trajectory saved in displacement mode comes back converted)')
     tc = ctx.fn(f'{TRAJ}.to_cache')
     it2 = ctx.entry(tc.qualname)
-    dumps = ctx.events(it2, 'pickle_dump', tc.qualname)
+    from .geo import under
+    dumps = [e for e in it2.events if e['tag'] == 'pickle_dump' and under(tc.qualname)(e)]
     if not dumps:
-        ctx.ob('R4', tc, tc.node.name, False, 'to_cache does not pickle anything')
+        other_calls = [c for c in calls_in(tc.node) if norm_text(c.func) not in ('open',)]
+        ctx.ob('R4', tc, tc.node.name, None if other_calls else False, 'to_cache does not pickle anything' if not other_calls else
+               'no pickle dump recognised in to_cache or its helpers')
     else:
         e = dumps[0]
         obj, f = e['obj'], e['file']
